@@ -74,6 +74,12 @@ def shadow_apply(s: Shadow, op: dict, taint_zero_std: bool = False) -> Shadow:
     k = op["op"]
     if k == "map_affine":
         return Shadow(op["a"] * s.arr + op["b"], s.dims, s.coords)
+    if k == "map_array":
+        # one payload per node: node at position (i, j, ...) of the node array gets b = its flat C index
+        shape = s.arr.shape[: s.nd]
+        b = np.arange(int(np.prod(shape)) if shape else 1).reshape(shape if shape else ())
+        b = b.reshape(b.shape + (1,) * (s.arr.ndim - s.nd))
+        return Shadow(op["a"] * s.arr + b, s.dims, s.coords)
     if k == "reduce":
         ax = s.dims.index(op["dim"])
         arr = REDUCTIONS[op["name"]](s.arr, axis=ax, keepdims=op["keep"])
@@ -161,6 +167,14 @@ def fluent_apply(a, op: dict, batch=None):
     k = op["op"]
     if k == "map_affine":
         return a.map(fluent.Payload(affine, kwargs={"a": op["a"], "b": op["b"]}))
+    if k == "map_array":
+        shape = tuple(a.nodes.shape)
+        pay = np.empty(shape, dtype=object)
+        for flat, idx in enumerate(np.ndindex(*shape)):
+            pay[idx] = fluent.Payload(affine, kwargs={"a": op["a"], "b": flat})
+        if shape == ():
+            pay[()] = fluent.Payload(affine, kwargs={"a": op["a"], "b": 0})
+        return a.map(pay)
     if k == "reduce":
         b = op["batch"] if batch is None else batch
         return getattr(a, op["name"])(dim=op["dim"], batch_size=b, keep_dim=op["keep"])
@@ -243,7 +257,7 @@ def gen_op(rng, s: Shadow, used: set) -> dict | None:
     big = [d for d in s.dims if s.size(d) >= 2]
     inner_rank = len(s.inner_shape)
     total = int(np.prod(s.arr.shape)) if s.arr.size else 0
-    choices = ["map_affine", "arith_scalar", "arith_action"]
+    choices = ["map_affine", "map_array", "arith_scalar", "arith_action"]
     if big:
         choices += ["reduce", "reduce", "reduce", "stack", "flatten", "isel", "sel", "join_split"]
         if inner_rank >= 1:
@@ -256,6 +270,8 @@ def gen_op(rng, s: Shadow, used: set) -> dict | None:
     free_name = next(n for n in ["p", "q", "r", "u", "v", "w", "t1", "t2", "t3"] if n not in s.dims and n not in used)
     if k == "map_affine":
         return {"op": k, "a": rng.choice([1, 2, 3]), "b": rng.choice([0, 1, 2])}
+    if k == "map_array":
+        return {"op": k, "a": rng.choice([1, 2, -1])}
     if k == "reduce":
         dim = rng.choice(big)
         n = s.size(dim)
